@@ -3,10 +3,52 @@ check; only obligations tagged with the property id are reported by it."""
 
 PROPS = {
     'C04': {
-        'verus': ['program_lines'],
+        'verus': ['program_lines', 'program_state'],
         'kani': [],
         'level': 'proof',
         'design_ref': 'DESIGN.md §5 U1, §6 C04',
+    },
+    'C01': {
+        'verus': ['program_lines', 'program_state'],
+        'kani': ['rng'],
+        'level': 'proof',
+        'design_ref': 'DESIGN.md §6 C01',
+    },
+    'C03': {
+        'verus': ['program_lines', 'program_state'],
+        'kani': [],
+        'level': 'proof',
+        'design_ref': 'DESIGN.md §6 C03',
+    },
+    'C07': {
+        'verus': ['program_state'],
+        'kani': [],
+        'level': 'proof',
+        'design_ref': 'DESIGN.md §6 C07',
+    },
+    'C09': {
+        'verus': ['program_state'],
+        'kani': [],
+        'level': 'proof',
+        'design_ref': 'DESIGN.md §6 C09',
+    },
+    'C10': {
+        'verus': ['program_lines', 'program_state'],
+        'kani': [],
+        'level': 'proof',
+        'design_ref': 'DESIGN.md §6 C10',
+    },
+    'C11': {
+        'verus': ['program_lines', 'program_state'],
+        'kani': [],
+        'level': 'proof',
+        'design_ref': 'DESIGN.md §6 C11',
+    },
+    'C16': {
+        'verus': ['program_state'],
+        'kani': [],
+        'level': 'proof',
+        'design_ref': 'DESIGN.md §6 C16',
     },
     'C18': {
         'verus': [],
@@ -23,6 +65,13 @@ UNDECIDED = {
         "edit path in Interpreter::evaluate_impl (generic AsRef<str>, Tokenizer) is assumed: a line is stored only after remaining_tokens() returned Ok",
         "line-number prefix parsing overflow clause rests on std's str::parse::<u64>",
     ],
+    'C01': ["tokenizer / DATA parser / statement and expression evaluators: panic-freedom undecided", "native stack exhaustion by nested parentheses: no stack model in either tool", "get_line_with_pointer_caret (fmt): undecided"],
+    'C03': ["statement dispatch, IF/ELSE token skipping, FOR/NEXT arithmetic in doubles (end_loop), DIM/array statements: undecided", "the IF..THEN GOSUB..ELSE defect named in the property lives in statement.rs and cannot be seen by this check"],
+    'C07': ["that STOP and the host break both reach Program::break_at_current_location (statement.rs:28, interpreter.rs:115) is read, not proved"],
+    'C09': ["single-pass scans in statement.rs:90-106,343-353 rest on the cursor contracts plus an unverified reading of three loops"],
+    'C10': ["RUN arm of maybe_process_command (fresh Variables/Arrays; pending reply not cleared) is outside Verus"],
+    'C11': ["end_loop returning NEXT WITHOUT FOR on a missing loop; next_data_element rebuilding the cursor (closure) - read, not proved"],
+    'C16': ["end_loop re-push; Arrays wrapper (maybe_create_default_array) - read, not proved"],
     'C18': [
         "the call path from the RND( token in an expression to Rng::rnd (expression.rs evaluate_function_call) is assumed",
         "Interpreter::randomize / JsInterpreter::randomize are one-line delegations, read not proved",
